@@ -156,7 +156,73 @@ func init() {
 		// wider but shallower: deletions of whole aligned subtrees of 4 need 8 leaves
 		schedPass(c, pick(c, 8, 9), 3, "wide.")
 		schedAligned(c)
+		schedChains(c)
 	}
+}
+
+// schedChains: long chains of small blocks (a sliding population): block counters and indexes that
+// are 8 bits wide go wrong after 256 recorded blocks. Every block adds a leaves and deletes d live
+// leaves chosen by a fixed policy; chains of 300 (thorough: also 520) blocks; six memory limits.
+func schedChains(c *Ctx) {
+	defer c.Phase("schedule chains")()
+	lens := []int{300}
+	if c.Thorough() {
+		lens = []int{300, 520}
+	}
+	c.Cov.Bound["chains"] = fmt.Sprintf("blocks per chain %v; a in {1,2}, d in {1,2}, policies oldest / newest / middle", lens)
+	var hists [][]Op
+	for _, L := range lens {
+		for _, a := range []int{1, 2} {
+			for _, d := range []int{1, 2} {
+				for _, policy := range []string{"oldest", "newest", "middle"} {
+					hist := []Op{{Kind: "block", Adds: 3}}
+					live := []int{0, 1, 2}
+					n := 3
+					for b := 1; b < L; b++ {
+						var dels []int
+						for k := 0; k < d && len(live) > 1; k++ {
+							idx := 0
+							switch policy {
+							case "newest":
+								idx = len(live) - 1
+							case "middle":
+								idx = len(live) / 2
+							}
+							dels = append(dels, live[idx])
+							live = append(live[:idx], live[idx+1:]...)
+						}
+						sortInts(dels)
+						hist = append(hist, Op{Kind: "block", Dels: dels, Adds: a})
+						for i := 0; i < a; i++ {
+							live = append(live, n+i)
+						}
+						n += a
+					}
+					hists = append(hists, hist)
+				}
+			}
+		}
+	}
+	var evalsN int64
+	ok := parallelFor(c, len(hists), func(i int) {
+		h := hists[i]
+		total := 0
+		for _, op := range h {
+			total += op.Adds
+		}
+		for _, m := range []int{1, 2, 5, total / 2, total, total + 1} {
+			vs, ev := evalSched(schedCase{Hist: h, Mem: m})
+			atomic.AddInt64(&evalsN, ev)
+			c.Col.Add(vs...)
+		}
+	})
+	if !ok {
+		c.Cov.NotExhaustive("deadline reached in the schedule chain family")
+	}
+	c.Cov.AddStates(int64(len(hists)))
+	c.Cov.AddTransitions(evalsN)
+	c.Cov.AddEvals(evalsN)
+	c.Cov.AddNontrivial(int64(len(hists)))
 }
 
 // schedAligned: structured larger histories: [add N][delete a union of up to two aligned blocks,
